@@ -12,7 +12,9 @@ in source order:
   * the dispatch loop: for each `p.start()` whether `p` is then registered in
     the polled container (`start true|false`), whether a child seed is drawn
     from the parent generator in the `Process(...)` call (`draw`), the in-loop
-    poll `while len(c) >= n_processors …: c = winnow(c)` (`pollWhileFull`);
+    poll `while len(c) >= n_processors: c = winnow(c)` (`pollWhileFull`; with
+    the extra disjunct `or not have_chosen_parent` of select_all_markers:
+    `pollWhileFullOrBlocked`);
   * the post-loop drain `while len(c) > 0: c = winnow(c)` (`drain`);
   * whether some function of the chain removes its scratch directory in a
     `finally`; the container kind (list / dict, and that the winnow function
@@ -163,16 +165,46 @@ def while_poll(stmt):
     if isinstance(stmt.test, ast.BoolOp) and isinstance(stmt.test.op, ast.Or):
         tests = list(stmt.test.values)
     cls = None
+    extra = []
     for t in tests:
         if isinstance(t, ast.Compare) and len(t.ops) == 1 \
                 and len_of(t.left) == c:
             if isinstance(t.ops[0], ast.GtE) and \
                     is_name(t.comparators[0], 'n_processors'):
                 cls = 'full'
+                continue
             elif isinstance(t.ops[0], ast.Gt) and \
                     isinstance(t.comparators[0], ast.Constant) and \
                     t.comparators[0].value == 0 and len(tests) == 1:
                 cls = 'nonempty'
+                continue
+        extra.append(t)
+    if extra:
+        # the only extra disjunct understood: `not <flag>` where the loop
+        # body sets `<flag> = True` when the poll removed a process
+        # (`if len(k1) < len(k0): ...; <flag> = True`)
+        ok = False
+        if cls == 'full' and len(extra) == 1 \
+                and isinstance(extra[0], ast.UnaryOp) \
+                and isinstance(extra[0].op, ast.Not) \
+                and isinstance(extra[0].operand, ast.Name):
+            flag = extra[0].operand.id
+            for n in ast.walk(stmt):
+                if isinstance(n, ast.If) and isinstance(n.test, ast.Compare) \
+                        and len(n.test.ops) == 1 \
+                        and isinstance(n.test.ops[0], ast.Lt) \
+                        and any(isinstance(a, ast.Assign)
+                                and is_name(a.targets[0], flag)
+                                and isinstance(a.value, ast.Constant)
+                                and a.value.value is True for a in n.body):
+                    ok = True
+            # nothing else in the loop may clear or set the flag
+            for n in ast.walk(stmt):
+                if isinstance(n, ast.Assign) and is_name(n.targets[0], flag) \
+                        and not (isinstance(n.value, ast.Constant)
+                                 and n.value.value is True):
+                    ok = False
+        cls = 'full_or_blocked' if ok else None
     # a `break` / `return` inside would leave the loop early
     for s in ast.walk(stmt):
         if isinstance(s, (ast.Break, ast.Return)):
@@ -236,6 +268,8 @@ class StageExtractor(object):
                 self.note_container(c, kind)
                 if cls == 'full':
                     out.append('.pollWhileFull')
+                elif cls == 'full_or_blocked':
+                    out.append('.pollWhileFullOrBlocked')
                 else:
                     raise Unrecognised(
                         'poll loop inside the dispatch loop with an '
